@@ -6,7 +6,7 @@ from __future__ import annotations
 import ast
 from types import SimpleNamespace
 
-from ..alg import Poly, Q, is_zero
+from ..alg import Poly, Q, Rat, is_zero
 from ..repo import AnalysisError, dotted, norm_text
 from ..xeval import Interp, XObj, Opaque, Sink, XRaise, Uninterpretable
 from ..xarray import XArray
@@ -183,6 +183,7 @@ def run(ctx):
         else:
             r6.fail(f.qualname, "active-dof", f.file, f.lineno, f"Field.{mname}", "the returned array does not depend on the active dof: for a vector field (dof_n > 1) the value is the scalar N_node whatever the component, so a form such as u.dot(v) couples different components (mass matrix with full dof_n x dof_n blocks instead of N_a N_b delta_ij)")
     copy_rule(ctx)
+    forms_rule(ctx)
 
 
 def copy_rule(ctx):
@@ -215,3 +216,155 @@ def copy_rule(ctx):
         r.fail(f.qualname, f"copy-drops:{missing[0]}", f.file, c.lineno, "Field.copy", f"the new Field is built without `{missing[0]}` (falls back to the default): in BiLinearForm.Integrate_e the trial field u and the weights use the field's quadrature while the test field v = field.copy() uses another - element matrices are wrong or mis-shaped")
     else:
         r.ok("Field.copy forwards every __init__ parameter")
+
+
+# ---------------------------------------------------------------------------
+# R13.8  user forms over the grammar, interpreted on the repository's Field / FeArray / Integrate_e source and compared
+#        with the per-point meaning of the same expression (sa/formspec.py)
+# ---------------------------------------------------------------------------
+
+BIL_SCALAR = [
+    "lambda u, v: u.grad.dot(v.grad)",
+    "lambda u, v: u.dot(v)",
+    "lambda u, v: kappa * u.grad.dot(v.grad) + c0 * u.dot(v)",
+    "lambda u, v: u.grad.dot(Am).dot(v.grad)",
+    "lambda u, v: (u.grad @ Am) @ v.grad",
+    "lambda u, v: (Am @ u.grad).dot(v.grad)",
+    "lambda u, v: (bv @ u.grad) * v.dot(u) / c0",
+    "lambda u, v: (2 * u).dot(v) - (u / 2).dot(v)",
+    "lambda u, v: (1 - u).dot(v)",
+    "lambda u, v: (c0 / (u + 2)).dot(v)",
+    "lambda u, v: (u - kappa).dot(v + 1)",
+    "lambda u, v: (kappa * Am @ u.grad) @ v.grad",
+]
+LIN_SCALAR = [
+    "lambda v: 1 * v",
+    "lambda v: kappa * v",
+    "lambda v: v * kappa - v / c0",
+    "lambda v: v.grad.dot(bv).reshape(Ne, nPg, 1)",
+    "lambda v: (bv @ v.grad).reshape(Ne, nPg, 1)",
+]
+BIL_VECTOR = [
+    "lambda u, v: Sym_Grad(u).ddot(Sym_Grad(v))",
+    "lambda u, v: lmbda * Trace(Sym_Grad(u)) * Trace(Sym_Grad(v)) + 2 * mu * Sym_Grad(u).ddot(Sym_Grad(v))",
+    "lambda u, v: u.grad.T.ddot(v.grad)",
+    "lambda u, v: Trace(u.grad @ v.grad.T) * kappa",
+    "lambda u, v: Sym_Grad(u).ddot(C4).ddot(Sym_Grad(v))",
+    "lambda u, v: (u.grad @ Am).ddot(v.grad - Transpose(v.grad) / c0)",
+]
+
+
+def forms_rule(ctx):
+    import itertools
+
+    from ..femodel import Model, FeV
+    from .. import formspec as FS
+    from ..xeval import Closure
+
+    repo = ctx.repo
+    r = ctx.rule(
+        "R13.8",
+        "forms over the grammar (u, v, grad, Sym_Grad, Trace, transpose, dot / ddot / @, field and constant coefficients on either side): Integrate_e of the repository's "
+        "Field / FeArray / form classes, interpreted, equals the integral of the per-point meaning of the same expression, entry by entry, for symbolic shape-function data",
+        min_instances=20,
+    )
+    M = Model(repo, max_steps=200_000_000)
+    fmod = repo.module("EasyFEA.FEM._field")
+    fcls = repo.cls(FIELD)
+    forms_mod = repo.module(FORMS)
+    ge = repo.cls("EasyFEA.FEM._group_elem._GroupElem")
+    mt = repo.enum_members("EasyFEA.FEM._utils.MatrixType")
+    for nm in ("__call__", "grad", "__mul__", "__rmul__", "__add__", "__radd__", "__sub__", "__rsub__", "__truediv__", "__rtruediv__", "__matmul__", "__rmatmul__", "dot", "ddot", "copy"):
+        if nm in fcls.methods:
+            r.analysed(fcls.methods[nm].qualname)
+
+    def deepcopy_hook(fn, args, kwargs):
+        if isinstance(fn, Opaque) and fn.tag.endswith("copy.deepcopy") and args and isinstance(args[0], XObj):
+            return XObj(args[0].cls, dict(args[0].attrs))
+        return NotImplemented
+
+    M.user_call_hook = deepcopy_hook
+    Ne, nPg, dim = 2, 2, 2  # Ne == nPg == dim on purpose
+
+    def setup(nPe, dof_n):
+        N = XArray((nPg, 1, nPe), [Poly.var(f"N{p}{a}") for p in range(nPg) for a in range(nPe)])
+        dN = FeV((Ne, nPg, dim, nPe), [Poly.var(f"d{e}{p}{k}{a}") for e in range(Ne) for p in range(nPg) for k in range(dim) for a in range(nPe)])
+        wJ = FeV((Ne, nPg), [Poly.var(f"w{e}{p}") for e in range(Ne) for p in range(nPg)])
+        g = XObj(ge, {"nPe": nPe, "Ne": Ne, "inDim": dim, "dim": dim, "Ncoords": nPe + 1, "Get_N_pg": lambda mt_=None: N, "Get_dN_e_pg": lambda mt_=None: dN, "Get_weightedJacobian_e_pg": lambda mt_=None: wJ})
+        fld = XObj(fcls, {})
+        M.I.call_function(fcls.methods["__init__"], [g, dof_n], {}, self_obj=fld)
+        return N, dN, wJ, fld
+
+    kappa = FeV((Ne, nPg), [Poly.var(f"k{e}{p}") for e in range(Ne) for p in range(nPg)])
+    Am = XArray((dim, dim), [Poly.var(f"A{i}{j}") for i in range(dim) for j in range(dim)])
+    bv = XArray((dim,), [Poly.var(f"b{i}") for i in range(dim)])
+    C4 = XArray((dim,) * 4, [Poly.var("C" + "".join(map(str, idx))) for idx in itertools.product(range(dim), repeat=4)])
+    consts = {"c0": Q(3), "lmbda": Q(5, 2), "mu": Q(7, 3), "Am": Am, "bv": bv, "C4": C4, "Ne": Ne, "nPg": nPg}
+    impl_env = dict(consts, kappa=kappa, Trace=repo.func("EasyFEA.FEM._linalg.Trace"), Transpose=repo.func("EasyFEA.FEM._linalg.Transpose"), Sym_Grad=repo.func("EasyFEA.FEM._field.Sym_Grad"))
+
+    class _Reshaped:
+        """spec side of `.reshape(Ne, nPg, 1)`: a per-point scalar stays that scalar"""
+
+    def spec_reshape(self, *a):
+        return self
+
+    FS.PT.reshape = spec_reshape
+
+    def run_form(src, bil, nPe, dof_n, label):
+        r.instance(fn=forms_mod.classes["BiLinearForm" if bil else "LinearForm"].methods["Integrate_e"].qualname)
+        N, dN, wJ, fld = setup(nPe, dof_n)
+        cls = forms_mod.classes["BiLinearForm" if bil else "LinearForm"]
+        f = cls.methods["Integrate_e"]
+        clo = M.I.eval_expr(ast.parse(src, mode="eval").body, dict(impl_env), "<form>", fmod)
+        obj = XObj(cls, {"_form": clo})
+        key = f"{label}:{src.split(':', 1)[1].strip()}"
+        try:
+            data = XArray.from_nested(M.I.call_function(f, [fld], self_obj=obj))
+        except XRaise as e:
+            r.fail(f.qualname, key, f.file, f.lineno, f"{cls.name}.Integrate_e", f"{label} form `{src}`: raises {e}")
+            return
+        except Uninterpretable as e:
+            if "cannot broadcast" in str(e) or "do not broadcast" in str(e) or "cannot reshape" in str(e):
+                # a shape error numpy itself would raise: the form does not produce a per-point scalar
+                r.fail(f.qualname, key, f.file, f.lineno, f"{cls.name}.Integrate_e", f"{label} form `{src}`: the integrand is not a scalar field ({e})")
+                return
+            raise
+        n = nPe * dof_n
+        bad = None
+        for e in range(Ne):
+            for i in range(n):
+                for j in range(n if bil else 1):
+                    tot = Rat.of(Poly())
+                    for p in range(nPg):
+                        env = dict(consts, kappa=FS.PT(kappa[e, p]), Trace=FS.Trace, Transpose=FS.Transpose, Sym_Grad=FS.Sym_Grad)
+                        mk = lambda d: FS.USpec(N[p, 0, d // dof_n], [dN[e, p, k, d // dof_n] for k in range(dim)], dof_n, d % dof_n)
+                        fn = eval(src, dict(env, __builtins__={}))
+                        val = fn(mk(i), mk(j)) if bil else fn(mk(i))
+                        val = val.v if isinstance(val, FS.PT) else val
+                        if isinstance(val, XArray):
+                            if val.size != 1:
+                                raise AnalysisError(f"R13.8: form `{src}` is not scalar-valued in the reference semantics")
+                            val = val.data[0]
+                        tot = tot + Rat.of(val) * Rat.of(wJ[e, p]) if not isinstance(val, Rat) else tot + val * Rat.of(wJ[e, p])
+                    got = data[e, i, j] if bil else data[e, i, 0]
+                    if not is_zero(Rat.of(got) - tot if not isinstance(got, Rat) else got - tot):
+                        bad = f"entry (e={e}, i={i}, j={j}) is {got!r}, the form means {tot!r}"
+                        break
+                if bad:
+                    break
+            if bad:
+                break
+        want_shape = (Ne, n, n) if bil else (Ne, n, 1)
+        if bad is None and data.shape != want_shape:
+            bad = f"shape {data.shape}, expected {want_shape}"
+        if bad:
+            r.fail(f.qualname, key, f.file, f.lineno, f"{cls.name}.Integrate_e", f"{label} form `{src}`: {bad}")
+        else:
+            r.ok(f"{label} `{src}`")
+
+    for src in BIL_SCALAR:
+        run_form(src, True, 2, 1, "scalar bilinear")
+    for src in LIN_SCALAR:
+        run_form(src, False, 2, 1, "scalar linear")
+    for src in BIL_VECTOR:
+        run_form(src, True, 2, 2, "vector bilinear")
